@@ -516,7 +516,7 @@ func assumptionsFor(v *Verifier, names []string) []string {
 		"lemmas about the specification functions that the SMT prelude states as axioms (L1: no member of a heap-ordered search tree outranks the root; cnt/sumb/ibytes >= 0) are proved in Lean 4 + Mathlib over hand-transcribed definitions (/verif/lean)",
 		"function values: a function value of the package that is handed to a parameter with a function-type contract is VERIFIED against that contract (conform@/conform-pre@ obligations, part of the counts above); assumed about closures: a callee does not retain a function value beyond the call (its frame would show the store); what a closure's `captures` clause says of its captured variables is asserted where the closure is made and re-proved at its exit, its stability in between against writes by the enclosing function is assumed; a closure handed to a callee changes, of its captured variables, only those its code stores to; CopyTo's copying visitor is not verified (CopyTo is outside the contracts)",
 		"visitor invariants: vinv(f, z) is uninterpreted; a closure's `tracks` clause defines it for that closure; assumed: a function value's invariant depends only on cells that existed when the value was made (footprint axiom), and application visitors preserve their own invariant (function-type contract of visitors, A9); lemma L3 (a strictly increasing log segment holding exactly the keys of a search tree has cnt entries) is proved in Lean over hand-transcribed definitions",
-		"extern contracts for encoding/json (Marshal, Unmarshal incl. the effect of Collection.UnmarshalJSON on the decoded map), sort.Strings (a permutation), StoreFile/io (A5), and built-in models of sync, sync/atomic, encoding/binary, bytes.Buffer, errors, fmt, math/rand",
+		"extern contracts for encoding/json (Marshal, Unmarshal incl. the effect of Collection.UnmarshalJSON on the decoded map), sort.Strings (a permutation), math/rand.Intn (a result in [0,n)), StoreFile/io (A5), and built-in models of sync, sync/atomic, encoding/binary, bytes.Buffer, errors, fmt, math/rand",
 		"user callbacks and visitors are neutral (A9): they touch no gkvlite state and, for visitors, only append to the ghost visit log")
 	for _, n := range names {
 		if c := v.cf.Funcs[n]; c != nil && c.Trusted {
